@@ -9,7 +9,7 @@ import ast
 
 from ..engine import rule
 from ..model import Undecided
-from ..cfg import dotted, call_name, is_call, simple_name, unparse, const_value, contains, enclosing, implied
+from ..cfg import same, dotted, call_name, is_call, simple_name, unparse, const_value, contains, enclosing, implied
 from ..flow import Canon, Defs, depends, expand, names_in, try_const
 from ..util import keyword, returns_of, calls_in, inside, order_key
 
@@ -205,9 +205,9 @@ def c08c(ctx):
     fn = ctx.fn('mapproxy/cache/base.py:TileLocker.lock_filename')
     rets = returns_of(fn.node)
     defs = Defs(fn.node)
-    ok_id = bool(rets) and all(depends(r.value, lambda x: unparse(x) == 'self.lock_cache_id', defs) for r in rets)
+    ok_id = bool(rets) and all(depends(r.value, lambda x: same(x, 'self.lock_cache_id'), defs) for r in rets)
     ctx.check(ok_id, fn.short + ':uses-cache-id', 'lock file name depends on self.lock_cache_id', fn)
-    ok_dir = bool(rets) and all(depends(r.value, lambda x: unparse(x) == 'self.lock_dir', defs) for r in rets)
+    ok_dir = bool(rets) and all(depends(r.value, lambda x: same(x, 'self.lock_dir'), defs) for r in rets)
     ctx.check(ok_dir, fn.short + ':in-lock-dir', 'lock file lives in self.lock_dir', fn)
     # all of tile.coord: every occurrence of tile.coord is used whole (argument of map/join/str/format) or all
     # three indices occur
@@ -251,7 +251,7 @@ MUTATORS = ('readwrite', '_readwrite', '_init_index', '_init_bundle', 'update_ti
 
 def _is_filelock_with(w):
     return any(is_call(it.context_expr, 'FileLock') and it.context_expr.args and
-               unparse(it.context_expr.args[0]) == 'self.lock_filename' for it in w.items)
+               same(it.context_expr.args[0], 'self.lock_filename') for it in w.items)
 
 
 @rule('C08.d', floor=14)
